@@ -13,9 +13,11 @@
      - window cache: every lookup in every history returns the freshly computed window, because
        the key separates all windows; and any key that identifies two requests leaks (the defect
        D5 repaired: the key used to quantise the Tukey parameter to 16 bits).
-   PARTIAL: the QLPC error buffer, the mid/side frame buffer, the estimator's float buffers and the
-   CRC scratch sinks are covered by the HIST stream only (compute_error zero-fills its buffer,
-   fill_stereo_with_iter overwrites [0, size), the sinks are cleared before use). *)
+     - QLPC error buffer: whatever the reused Vec<i32> held, resize + compute_error leave exactly the residuals
+       of the block (C10_qlpc_buffer_ignores_stale_contents; tied by SCR QERR cases: the hook runs compute_error
+       on a buffer with explicit stale contents, including the i32 / i64 path boundary).
+   PARTIAL: the mid/side frame buffer, the estimator's float buffers and the CRC scratch sinks are covered by
+   the HIST stream (natural histories and arbitrary poisoned contents, hook poison_scratch), not by a theorem. *)
 From FV Require Import Model.Base Model.Rice Model.Predict Model.Scratch Proofs.ScratchP.
 Local Open Scope N_scope.
 
@@ -43,3 +45,9 @@ Theorem C10_colliding_key_leaks :
   run_cache V compute key [] [(w1, s1); (w2, s2)] = [compute w1 s1; compute w1 s1].
 Proof. exact colliding_key_leaks. Qed.
 Print Assumptions C10_colliding_key_leaks.
+
+Theorem C10_qlpc_buffer_ignores_stale_contents :
+  forall (stale : list Z) (q : qparams) (signal : list Z),
+  qlpc_error_buffer stale q signal = lpc_errors q signal.
+Proof. exact qlpc_buffer_stale_independent. Qed.
+Print Assumptions C10_qlpc_buffer_ignores_stale_contents.
